@@ -1431,13 +1431,13 @@ Qed.
 Lemma pending_keys_in m k : In k (map fst (pending m)) -> In k (map fst m).
 Proof.
   induction m as [|[k' t] r IH]; cbn [pending map fst In]; [tauto|].
-  destruct (t_tok t); cbn [map fst In]; intuition.
+  destruct (t_tok t); try destruct (t_dur t <? far); cbn [map fst In]; intuition.
 Qed.
 
 Lemma pending_nodup m : sorted m -> NoDup (map fst (pending m)).
 Proof.
   induction m as [|[k t] r IH]; cbn [sorted pending map]; [constructor|]. intros [L S].
-  destruct (t_tok t); auto. cbn [map fst]. constructor; [|auto].
+  destruct (t_tok t); auto. destruct (t_dur t <? far); auto. cbn [map fst]. constructor; [|auto].
   intro I. apply pending_keys_in in I. exact (lb_not_key _ _ L I).
 Qed.
 
@@ -1448,7 +1448,7 @@ Proof.
   assert (Rest : In (k, dl) (pending r) -> exists t0, aget k ((k', t) :: r) = Some t0 /\ t_tok t0 = Pending dl).
   { intro I2. destruct (IH I2 S) as (t0 & E & Q). exists t0. split; [|exact Q]. cbn [aget].
     destruct (Z.eqb_spec k k'); [|exact E]. subst. rewrite (lb_not_in _ _ L) in E. discriminate. }
-  destruct (t_tok t) eqn:Q; auto. destruct I as [E|I]; [|auto].
+  destruct (t_tok t) eqn:Q; auto. destruct (t_dur t <? far); auto. destruct I as [E|I]; [|auto].
   inv E. exists t. cbn [aget]. rewrite Z.eqb_refl. auto.
 Qed.
 
@@ -2241,7 +2241,8 @@ Qed.
 
 Lemma deliver_rt s k : forallb rt (deliver s k) = true.
 Proof.
-  unfold deliver. destruct (aget k (objs s)) as [t|]; [|reflexivity]. destruct (t_tok t); reflexivity.
+  unfold deliver. destruct (aget k (objs s)) as [t|]; [|reflexivity].
+  destruct (t_tok t); try reflexivity. destruct (t_dur t <? far); reflexivity.
 Qed.
 
 Lemma delivers_rt s l : forallb rt (flat_map (deliver s) l) = true.
@@ -2381,7 +2382,7 @@ Proof.
   induction ops as [|o r IH]; intros s tr m bs I R Cu Srt; rewrite exec_from_obs; [reflexivity|].
   pose proof (inv_run_from (compile s o (hint bs)) s tr I) as I1.
   pose proof (sorted_run_from (compile s o (hint bs)) s Srt) as S1.
-  destruct o as [d rep a p|n d rep a|ms|k| |g|k| | |g| | |w]; cbn [compile obs_of monitor_from] in *.
+  destruct o as [d rep a p|n d rep a|ms|k| |g|k| | |g| | |w|d rep a p]; cbn [compile obs_of monitor_from] in *.
   - (* create *)
     cbn [run_from] in *. destruct (create s d rep a p) as [s1 e1] eqn:C. cbn [step fst snd] in *.
     rewrite C in *. cbn [fst snd] in *. rewrite app_nil_r in *.
@@ -2475,6 +2476,12 @@ Proof.
     apply IH; auto.
     + rewrite app_assoc. exact T2.
     + congruence.
+  - (* create, duration in ns *)
+    cbn [run_from] in *. destruct (create s d rep a p) as [s1 e1] eqn:C. cbn [step fst snd] in *.
+    rewrite C in *. cbn [fst snd] in *. rewrite app_nil_r in *.
+    apply IH; auto.
+    + pose proof (rel_create s tr m d rep a p I R) as X. rewrite C in X. exact X.
+    + unfold create in C. inv C. exact Cu.
 Qed.
 
 Lemma inv_start ops : Inv (start_state ops) (start_trace ops).
